@@ -1,26 +1,66 @@
-(* ServerSec.v — which OpenSecureChannel requests the server accepts, and which endpoints it advertises.
-   Hand transcription of
-     server/channel_broker.go RegisterConn (every connection starts from defaultChannelConfig: policy None, mode None,
-                              the server's certificate and key), server/server_config.go defaultChannelConfig
-     uasc/secure_channel.go   readChunk ("OPN": s.cfg.SecurityPolicyURI = m.SecurityPolicyURI, algorithm built from the
-                              local key and the sender certificate), handleOpenSecureChannelRequest (s.cfg.SecurityMode =
-                              req.SecurityMode); newSecureChannel's consistency rule on the client side
-     server/server.go         initEndpoints
-   tied by the C30 matrix (engines/C30.py: server configurations x client policy/mode, real channels).
+(* ServerSec.v — which OpenSecureChannel requests the server accepts, what it serves on the channel, which endpoints it
+   advertises.  Hand transcription of
+     server/server_config.go   securityEnabled, acceptSecurity, defaultChannelConfig
+     server/channel_broker.go  RegisterConn (cfg.AcceptSecurity = accept; ERR + close on a security rejection)
+     server/service_handlers.go handleService (checkChannel before checkSession), discoveryService
+     uasc/secure_channel.go    readChunk ("OPN": the policy of the asymmetric header is adopted and the algorithm built from
+                               the local key and the sender certificate), handleOpenSecureChannelRequest (the mode of the
+                               request is adopted, then cfg.AcceptSecurity is consulted)
+     server/server.go          initEndpoints
+   tied by Gen.ServerGen.g_sec_table (the code's own securityEnabled / acceptSecurity evaluated for ten configurations x all
+   policies x modes 0..4 on every run) and by the C30 matrix of real channels and raw OPN frames (engines/C30.py).
    Policies are numbered: 0 = None, 1.. = the other supported policies; modes 1 None, 2 Sign, 3 SignAndEncrypt. *)
 From Coq Require Import NArith Bool List.
+From Opcua Require Import Model.ServerSpace Model.ServerBrowse Model.Server.
 Import ListNotations.
 Open Scope N_scope.
 
 Definition secpair := (N * N)%type.
 
-(* the pairs a client of this stack can ask for (newSecureChannel refuses the others before sending) *)
-Definition consistent (p m : N) : bool := if p =? 0 then m =? 1 else (m =? 2) || (m =? 3).
+Definition StBadSecurityModeRejected := 2152988672.    (* 0x80540000 *)
+Definition StBadSecurityPolicyRejected := 2153054208.  (* 0x80550000 *)
 
-(* the server side: policy and mode are adopted from the request; `enabled` is not consulted.  A policy other than None
-   needs the server's private key to build the asymmetric algorithm. *)
+Definition pair_in (enabled : list secpair) (p m : N) : bool := existsb (fun e => (fst e =? p) && (snd e =? m)) enabled.
+
+(* serverConfig.securityEnabled: sessions may be used over a channel with this pair *)
+Definition sec_enabled (enabled : list secpair) (p m : N) : bool :=
+  match enabled with
+  | [] => (p =? 0) && (m =? 1)          (* no EnableSecurity at all: None/None as ever, and only that *)
+  | _ => pair_in enabled p m
+  end.
+
+(* serverConfig.acceptSecurity: None = the OpenSecureChannel request is accepted, Some status = refused *)
+Definition accept_security (enabled : list secpair) (p m : N) : option N :=
+  if sec_enabled enabled p m then None
+  else if (p =? 0) && (m =? 1) then None     (* discovery-only channel *)
+  else if existsb (fun e => fst e =? p) enabled then Some StBadSecurityModeRejected
+  else Some StBadSecurityPolicyRejected.
+
+(* what the uasc layer itself needs: a policy / mode pair it can run, and the private key for a secured policy *)
+Definition consistent (p m : N) : bool := if p =? 0 then m =? 1 else (m =? 2) || (m =? 3).
+Definition uasc_ok (has_key : bool) (p m : N) : bool := consistent p m && ((p =? 0) || has_key).
+
+(* the server side of OpenSecureChannel, after the fix *)
 Definition opn_accept (enabled : list secpair) (has_key : bool) (p m : N) : bool :=
-  consistent p m && ((p =? 0) || has_key).
+  match accept_security enabled p m with None => uasc_ok has_key p m | Some _ => false end.
+
+(* ... and before it: the configuration was not consulted *)
+Definition opn_accept_before_fix (enabled : list secpair) (has_key : bool) (p m : N) : bool := uasc_ok has_key p m.
+
+(* discoveryService *)
+Definition discovery_services : list N :=
+  [SvcFindServers; SvcFindServersOnNetwork; SvcGetEndpoints; SvcRegisterServer; SvcRegisterServer2].
+Definition discovery (svc : N) : bool := existsb (N.eqb svc) discovery_services.
+
+(* handleService on a channel opened with pair (p, m): handler lookup, checkChannel, then the rest (Model.Server.handle) *)
+Definition handle_on (enabled : list secpair) (chansec : N -> secpair) (fuel : nat) (s : srv) (e : event) : srv * outcome :=
+  match e with
+  | EReq chan tok r =>
+      if has_handler r && negb (discovery (svc_of r)) && negb (sec_enabled enabled (fst (chansec chan)) (snd (chansec chan)))
+      then (s, OFault StBadSecurityPolicyRejected)
+      else handle fuel s e
+  | _ => handle fuel s e
+  end.
 
 (* initEndpoints: one endpoint per enabled pair and url *)
 Definition advertised (enabled : list secpair) (urls : list N) : list (N * secpair) :=
